@@ -147,3 +147,64 @@ func ZZ_C16_OctreeContainingPoint() {
 	}
 	zz.Reach("answered")
 }
+
+// ray queries: the set of elements whose bounds the ray crosses equals the exhaustive scan with the same
+// per-element test - for two successive rays on the same tree (the tree reuses internal buffers).
+func ZZ_C16_OctreeRay() {
+	boxes := []geometry.AABB{
+		geometry.NewAABB(vector3.New(0., 0., 0.), vector3.New(1., 1., 1.)),
+		geometry.NewAABB(vector3.New(4., 0., 0.), vector3.New(1., 2., 1.)),
+		geometry.NewAABB(vector3.New(0., 5., 1.), vector3.New(2., 1., 1.)),
+		geometry.NewAABB(vector3.New(4., 5., -1.), vector3.New(1., 1., 3.)),
+	}[:zz.Bound("BOXES")]
+	tv := zz.Float64("e.t")
+	free := geometry.NewAABB(vector3.New(tv, 2.5, 0.25), vector3.New(1., 1., 1.))
+	var els []trees.Element
+	var bounds []geometry.AABB
+	at := zz.Choose("insertAt", len(boxes)+1)
+	for i := 0; i <= len(boxes); i++ {
+		if i == at {
+			els = append(els, trees.BoundingBoxElement(free))
+			bounds = append(bounds, free)
+		}
+		if i < len(boxes) {
+			els = append(els, trees.BoundingBoxElement(boxes[i]))
+			bounds = append(bounds, boxes[i])
+		}
+	}
+	t := tree(els)
+	dirs := []vector3.Float64{vector3.New(1., 0.25, 0.125), vector3.New(-0.5, 1., 0.25), vector3.New(0.25, -0.125, -1.)}
+	zz.Reach("built")
+	for q := 0; q < 2; q++ {
+		// the ray origin varies along one axis (a fully symbolic origin multiplies the slab-test forks of two
+		// successive queries beyond a per-change budget)
+		o := vector3.New(zz.Float64(fmt.Sprintf("o%d.x", q)), 0.375, 0.125)
+		if q == 1 && (zz.Bound("SECOND") == 0 || !zz.Bool("secondRaySymbolic")) {
+			// a second ray that starts far away and points away: it misses every cell the first one may have hit
+			o = vector3.New(1000., 0.375, 0.125)
+		}
+		ray := geometry.NewRay(o, dirs[zz.Choose(fmt.Sprintf("dir%d", q), zz.Bound("DIRS"))])
+		got := t.ElementsIntersectingRay(ray, 0, 100)
+		for j := range bounds {
+			n := 0
+			for _, g := range got {
+				if g == j {
+					n++
+				}
+			}
+			// Concrete boxes are folded in float64 while the free box and the ray are exact reals, so a ray
+			// that grazes a face within ~1e-16 can be classified differently by the cell and by the element.
+			// The oracle therefore uses the element's own test on a slightly shrunk / grown box: crossing the
+			// shrunk box must be reported, missing the grown box must not be.
+			b := bounds[j]
+			shrunk := geometry.NewAABB(b.Center(), b.Size().Scale(1-1e-6))
+			grown := geometry.NewAABB(b.Center(), b.Size().Scale(1+1e-6))
+			if shrunk.IntersectsRayInRange(ray, 1e-6, 100-1e-6) {
+				zz.Assert(n == 1, fmt.Sprintf("ElementsIntersectingRay (query %d): an element whose bounds the ray crosses is reported exactly once", q+1))
+			} else if !grown.IntersectsRayInRange(ray, 0, 100) {
+				zz.Assert(n == 0, fmt.Sprintf("ElementsIntersectingRay (query %d): an element whose bounds the ray misses is not reported", q+1))
+			}
+		}
+	}
+	zz.Reach("answered")
+}
